@@ -25,9 +25,71 @@ pub fn c17(t: &Trace, r: &mut Report) {
 }
 
 pub fn c20(t: &Trace, r: &mut Report) {
+    // "an envelope configured with an out-of-range value behaves identically to one configured with the
+    // corresponding bound": a twin envelope (the real implementation) receives, instead of each raw parameter, the
+    // converted value the first one reports for it, and must then produce the same state and output for ever.
+    let mut twin: Option<(synth_utils::adsr::Adsr, usize)> = None;
     for i in 0..t.ops.len() {
         let op = &t.ops[i];
         if op.is_empty() {
+            continue;
+        }
+        if op[0] == "adsr" && op.len() == 3 {
+            twin = Some((synth_utils::adsr::Adsr::new(fbits(op[2])), i));
+            continue;
+        } else if op.len() >= 2 && op[1] == "new" {
+            twin = None;
+        }
+        if let Some((tw, start)) = twin.as_mut() {
+            let obs = &t.obs[i];
+            let known = matches!(op[0], "tick" | "gate_on" | "gate_off" | "set" | "setacc");
+            if known && obs.len() >= 10 && obs[0] != "PANIC" {
+                use synth_utils::adsr::Input;
+                let res = std::panic::catch_unwind(std::panic::AssertUnwindSafe(|| {
+                    match op[0] {
+                        "tick" => tw.tick(),
+                        "gate_on" => tw.gate_on(),
+                        "gate_off" => tw.gate_off(),
+                        "setacc" => tw.verif_set_accumulator(num(op[1]) as u32),
+                        _ => {
+                            // the converted value the envelope under test reports for this parameter
+                            let (col, mk): (usize, fn(f32) -> Input) = match op[1] {
+                                "a" => (6, |v| Input::Attack(v.into())),
+                                "d" => (7, |v| Input::Decay(v.into())),
+                                "s" => (8, |v| Input::Sustain(v.into())),
+                                _ => (9, |v| Input::Release(v.into())),
+                            };
+                            tw.set_input(mk(fbits(obs[col])));
+                        }
+                    }
+                    crate::exec::adsr_obs(tw)
+                }));
+                match res {
+                    Ok(s) => {
+                        let w: Vec<&str> = s.split_whitespace().collect();
+                        r.eval();
+                        if op[0] == "set" {
+                            r.nt(h2(num(op[2]), 9));
+                        }
+                        if w[0] != obs[0] || w[3] != obs[3] || w[1] != obs[1] {
+                            let st = *start;
+                            r.fail(
+                                i,
+                                st,
+                                "twin",
+                                format!(
+                                    "after '{}' the envelope configured with raw parameters is in state {} at {} with value {}, the one configured with the converted values in state {} at {} with value {}",
+                                    op.join(" "), obs[0], obs[1], fbits(obs[3]), w[0], w[1], fbits(w[3])
+                                ),
+                            );
+                            twin = None;
+                        }
+                    }
+                    Err(_) => twin = None,
+                }
+            } else if known {
+                twin = None;
+            }
             continue;
         }
         match op[0] {
